@@ -162,21 +162,27 @@ def check(ctx: Ctx) -> list[RuleResult]:
     out.append(r3)
 
     # ---- R4 ---------------------------------------------------------------------------
-    r4 = RuleResult("R4", "latest wins per key", "_handle_msg stores unconditionally under [code] and [code][verb][ctx], keys from the message itself", min_instances=4)
+    r4 = RuleResult("R4", "latest wins per key", "_handle_msg stores unconditionally under [code] and [code][verb][ctx], keys from the message itself", min_instances=3)
     hm = repo.func(f"{EB}._MessageDB._handle_msg")
-    stores = [n for n in own_nodes(hm.node) if isinstance(n, ast.Assign) and isinstance(n.targets[0], ast.Subscript)]
-    if len(stores) < 4:
+    # every way the message is filed: key paths from the DB attribute down to the stored `msg`, through chained subscripts,
+    # nested dict displays, .setdefault() chains and local aliases of those
+    paths = _store_paths(hm)
+    if len(paths) < 2:
         raise AnalysisError("_MessageDB._handle_msg: stores not found")
-    for s in stores:
+    want = {"self._msgs_": ["msg.code"], "self._msgz_": ["msg.code", "msg.verb", "msg._pkt._ctx"]}
+    seen_roots = set()
+    for root, keys, node in paths:
         r4.instances += 1
         r4.nontrivial += 1
-        t = norm(s.targets[0])
-        v = norm(s.value)
-        ok = (t == "self._msgs_[msg.code]" and v == "msg") or (t.startswith("self._msgz_[msg.code]") and "msg" in v and all(k in ("msg.code", "msg.verb", "msg._pkt._ctx") for k in _keys(s.targets[0])))
-        if ok:
-            r4.ok({"store": f"{t} = {v[:40]}"})
+        seen_roots.add(root)
+        if root in want and keys == want[root]:
+            r4.ok({"store": f"{root}[{']['.join(keys)}] = msg"})
+        elif root in want:
+            r4.fail(f"{hm.short}:{root}:{'/'.join(keys)[:60]}", hm.loc(node), f"the message is filed under {root}[{']['.join(keys)}], expected [{']['.join(want[root])}]: messages of different contexts (e.g. 000C replies for different roles of one zone, 0404 fragments) would overwrite each other")
         else:
-            r4.fail(f"{hm.short}:{t[:50]}", hm.loc(s), f"`{t} = {v[:40]}` does not store the message under its own code/verb/context")
+            r4.ok({"store": f"{root}[...] (not a message DB)"})
+    if not {"self._msgs_", "self._msgz_"} <= seen_roots:
+        raise AnalysisError(f"_MessageDB._handle_msg: no store into {sorted({'self._msgs_', 'self._msgz_'} - seen_roots)}")
     # no age comparison guards the store (latest arrival wins)
     r4.instances += 1
     r4.nontrivial += 1
@@ -213,29 +219,47 @@ def check(ctx: Ctx) -> list[RuleResult]:
     out.append(r5)
 
     # ---- R6 ---------------------------------------------------------------------------
-    r6 = RuleResult("R6", "payload-defined lifetimes take precedence", "in Message._expired every other update of _fraction_expired lies on the false edge of the sync-cycle (1F09, not RQ) test", min_instances=2)
-    cfge = ctx.plain_cfg(ex)
-    sync_tests = [t for t in cfge.nodes if t.kind == "test" and "Code._1F09" in norm(t.ast) and "self.verb != RQ" in norm(t.ast)]
-    if len(sync_tests) != 1:
-        raise AnalysisError("Message._expired: the sync-cycle (1F09) test was not found")
-    st = sync_tests[0]
-    writes = [n for n in cfge.nodes if n.kind == "stmt" and isinstance(n.ast, ast.Assign) and norm(n.ast.targets[0]) == "self._fraction_expired"]
-    pay = [w for w in writes if "remaining_seconds" in norm(w.ast.value)]  # type: ignore[union-attr]
-    if not pay:
-        raise AnalysisError("Message._expired: the payload-derived lifetime (remaining_seconds) is no longer used")
-    for w in writes:
+    # Which update of _fraction_expired runs is a function of (code, verb, the packet's table lifetime): the decision table of the
+    # update chain is computed by abstract evaluation (predeval.py); a sync-cycle message (1F09, any verb but RQ) must always
+    # take its lifetime from the payload's countdown - in particular before the "table lifetime is False -> cannot expire" case,
+    # because Packet stores the zero table lifetime of an RP/W 1F09 as False.
+    r6 = RuleResult("R6", "payload-defined lifetimes take precedence", "decision table of Message._expired's update chain: every non-RQ 1F09 uses the payload countdown", min_instances=3)
+    import copy as _copy
+
+    chain = [st for st in ex.node.body if isinstance(st, ast.If) and any(isinstance(n, ast.Assign) and norm(n.targets[0]) == "self._fraction_expired" for n in ast.walk(st)) and any("remaining_seconds" in norm(n) for n in ast.walk(st))]
+    if len(chain) != 1:
+        raise AnalysisError("Message._expired: the chain that updates _fraction_expired (incl. the remaining_seconds case) was not found")
+
+    class _ToReturn(ast.NodeTransformer):
+        def visit_Assign(self, node: ast.Assign):  # noqa: N802
+            if norm(node.targets[0]) == "self._fraction_expired":
+                return ast.copy_location(ast.Return(value=ast.Constant(value=norm(node.value))), node)
+            return node
+
+    synth_body = [_ToReturn().visit(_copy.deepcopy(chain[0]))]
+    synth = ast.FunctionDef(name="_update", args=ast.arguments(posonlyargs=[], args=[ast.arg(arg="self")], kwonlyargs=[], kw_defaults=[], defaults=[]), body=synth_body, decorator_list=[], type_params=[])
+    ast.fix_missing_locations(synth)
+    from ..loader import FuncInfo as _FI
+    from ..predeval import PredEval, Unsupported
+
+    verbs = [ctx.const("ramses_tx.const", k) for k in ("I_", "RQ", "RP", "W_")]
+    try:
+        tab = PredEval(ctx, _FI(ex.qualname + ".<update>", "_update", synth, ex.module, ex.cls, None), domains={"self.verb": verbs, "self.code": ["1F09"]}).table()
+    except Unsupported as err:
+        raise AnalysisError(f"Message._expired: update chain not understood: {err}") from err
+    rqv = ctx.const("ramses_tx.const", "RQ")
+    for vb in verbs:
+        if vb == rqv:
+            continue
         r6.instances += 1
         r6.nontrivial += 1
-        if w in pay:
-            ok = cfge.edge_dominates(st, "true", w)
-            if ok:
-                r6.ok({"write": norm(w.ast)[:70], "on": "true edge of the sync-cycle test"})
-            else:
-                r6.fail(f"{ex.short}:payload-lifetime-unguarded", ex.loc(w.ast), "the payload-derived lifetime is applied outside the sync-cycle test")
-        elif cfge.edge_dominates(st, "false", w):
-            r6.ok({"write": norm(w.ast)[:70], "on": "false edge of the sync-cycle test"})
+        bad = [(a, r) for a, r in tab.rows if a.get("self.code") == "1F09" and a.get("self.verb") == vb and not (isinstance(r, str) and "remaining_seconds" in r)]
+        if bad:
+            a, r = bad[0]
+            r6.fail(f"{ex.short}:sync-cycle-lifetime:verb={vb.strip()}", ex.loc(chain[0]), f"a {vb.strip()}|1F09 does not take its lifetime from the payload's countdown when {tab.describe({k: v for k, v in a.items() if k not in ('self.code', 'self.verb')})}: it gets `{r}` instead (an RP/W 1F09 has a table lifetime of zero, stored as False = 'cannot expire')")
         else:
-            r6.fail(f"{ex.short}:{norm(w.ast)[:60]}:before-sync-test", ex.loc(w.ast), f"`{norm(w.ast)[:70]}` can be reached by a sync-cycle (1F09) message without passing the payload-lifetime branch: its countdown is then ignored (an RP/W 1F09 has a table lifetime of zero, which Packet stores as 'cannot expire')")
+            r6.ok({"verb": vb.strip(), "code": "1F09", "lifetime": "payload countdown (remaining_seconds) in every row"})
+    r6.info = {"decision_table_rows": len(tab.rows), "flags": tab.atoms}
     out.append(r6)
 
     # ---- R7 ---------------------------------------------------------------------------
@@ -443,6 +467,53 @@ def _selection_kind(ctx: Ctx, f, v: ast.expr, depth: int = 0) -> str | None:
                     kinds.append(k)
             return " | ".join(sorted(set(kinds)))
     return None
+
+
+def _store_paths(f) -> "list[tuple[str, list[str], ast.AST]]":
+    """[(root attribute text, [key texts...], node)] for every `... = msg` store in f."""
+    aliases: dict[str, tuple[str, list[str]]] = {}
+
+    def chain(e: ast.expr) -> "tuple[str, list[str]] | None":
+        """X[k1][k2] / X.setdefault(k1, {}).setdefault(k2, {}) / alias -> (root, [k1, k2])."""
+        if isinstance(e, ast.Name) and e.id in aliases:
+            r, ks = aliases[e.id]
+            return r, list(ks)
+        if isinstance(e, ast.Attribute) and isinstance(e.value, ast.Name) and e.value.id == "self":
+            return norm(e), []
+        if isinstance(e, ast.Subscript) and not isinstance(e.slice, ast.Slice):
+            b = chain(e.value)
+            return (b[0], b[1] + [norm(e.slice)]) if b else None
+        if isinstance(e, ast.Call) and isinstance(e.func, ast.Attribute) and e.func.attr == "setdefault" and len(e.args) == 2 and isinstance(e.args[1], ast.Dict) and not e.args[1].keys:
+            b = chain(e.func.value)
+            return (b[0], b[1] + [norm(e.args[0])]) if b else None
+        return None
+
+    def leaves(v: ast.expr, keys: list[str]) -> "list[list[str]]":
+        if isinstance(v, ast.Name) and v.id == "msg":
+            return [keys]
+        if isinstance(v, ast.Dict):
+            out = []
+            for k, x in zip(v.keys, v.values):
+                if k is not None:
+                    out += leaves(x, keys + [norm(k)])
+            return out
+        return []
+
+    out: list[tuple[str, list[str], ast.AST]] = []
+    for st in ast.walk(f.node):
+        if isinstance(st, ast.Assign) and len(st.targets) == 1:
+            t = st.targets[0]
+            if isinstance(t, ast.Name):
+                c = chain(st.value)
+                if c is not None and c[1]:
+                    aliases[t.id] = c
+                continue
+            c = chain(t)
+            if c is None:
+                continue
+            for ks in leaves(st.value, c[1]):
+                out.append((c[0], ks, st))
+    return out
 
 
 def _keys(t: ast.Subscript) -> list[str]:
